@@ -432,7 +432,10 @@ def polyjsonParse (j : JVal) : Sequence :=
 /-! ### the same at the level of JSON TEXT (the Lean printer / reader of Base/JVal, Base/JsonRead) -/
 
 /-- `json.Marshal(x)` as text: compact form, members in struct order, Go's string escapes -/
-def writeText (x : Sequence) : S := (toJ x).print
+def marshalText (x : Sequence) : S := (toJ x).print
+
+/-- the file `polyjson.Write(x, path)` stores, and what `poly convert -o json` prints: `json.MarshalIndent(x, "", " ")` -/
+def writeFileText (x : Sequence) : S := (toJ x).printIndent
 
 /-- `polyjson.Parse(text)`; `none`: the text is not a JSON document (Go: Unmarshal error, ignored by Parse) -/
 def parseText (t : S) : Option Sequence := (JsonRead.parse t).map polyjsonParse
